@@ -50,6 +50,8 @@ def wrap(vals, c, container=None, index=None, cols=None, dtype=None):
     n, p = A.shape
     idx = {"range": pd.RangeIndex(n), "offset": pd.RangeIndex(50, 50 + n), "datetime": pd.date_range("2020-05-01", periods=n, freq="D"),
            "period": pd.period_range("2019-01", periods=n, freq="M")}[index]
+    if core._bits(c, 9, 3) == 1:  # a named index: the name belongs to the caller's labels and travels with them
+        idx = idx.rename("time")
     if container == "array2d":
         return A
     if container == "array1d":
@@ -67,7 +69,7 @@ def gen_det(rng):
     return {"t": "det", "kind": kind, "n": rng.randint(20, 36), "p": p, "seed": rng.randint(0, 10**6), "container": container,
             "index": rng.choice(INDEXES), "cols": rng.choice(COLS), "dtype": rng.choice(DTYPES), "big": rng.random() < 0.3,
             "scale": rng.choice([0.5, 1.0, None]), "m": rng.randint(1, 3), "entry": rng.choice(["predict", "transform", "transform_scores", "transform_scores", "update", "fit_predict"]),
-            "ov": rng.choice([0, 1, 4]), "quiet": rng.random() < 0.15, "prior": rng.random() < 0.3}
+            "ov": rng.choice([0, 1, 4]), "quiet": rng.random() < 0.15, "prior": rng.choice([0, 0, 0, 0, 1, 1, 2, 2])}
 
 
 def outputs(det, kind, X, c, is_ref):
@@ -88,23 +90,31 @@ def outputs(det, kind, X, c, is_ref):
         return out
     det.fit(X)
     out["fitted"] = {a: float(getattr(det, a)) for a in vars(det) if a.endswith("_") and not a.startswith("_") and np.isscalar(getattr(det, a))}
-    if c.get("prior"):  # the fitted detector first sees OTHER numbers, passed as a plain array (default index), in every representation
+    if c.get("prior") == 1:  # the fitted detector first sees OTHER numbers, passed as a plain array (default index), in every representation
         other = np.asarray(X, dtype=float)[::-1] * 2.0 + 1.0
         det.predict(other.reshape(len(other), -1))
+    elif c.get("prior") == 2:  # ... or the SAME numbers as a plain float array, through the same entry point
+        plain = np.asarray(X, dtype=float).reshape(len(X), -1).copy()
+        try:
+            getattr(det, c["entry"] if c["entry"] != "fit_predict" else "predict")(plain)
+        except NotImplementedError:
+            pass
+    idx0 = X.index.copy(deep=True) if isinstance(X, (pd.Series, pd.DataFrame)) else None  # the caller's labels before the judged call
     if c["entry"] in ("predict", "fit_predict"):
         y = det.predict(X) if c["entry"] == "predict" else det.fit_predict(X)
         out["predict"] = frame_sig(y)
     elif c["entry"] == "transform":
         d = det.transform(X)
         out["dense"] = json.dumps(np.asarray(d).tolist())
-        want_idx = X.index if isinstance(X, (pd.Series, pd.DataFrame)) else pd.RangeIndex(len(X))
-        out["index_ok"] = bool(d.index.equals(want_idx))
+        want_idx = idx0 if idx0 is not None else pd.RangeIndex(len(X))
+        out["index_ok"] = bool(d.index.identical(want_idx)) and (idx0 is None or bool(X.index.identical(idx0)))
     else:
         try:
             s = det.transform_scores(X)
             out["scores"] = [float(v) for v in np.asarray(s).reshape(-1)]
-            want_idx = X.index if isinstance(X, (pd.Series, pd.DataFrame)) else pd.RangeIndex(len(X))
-            out["index_ok"] = bool(s.index.equals(want_idx)) if hasattr(s, "index") and len(s) == len(X) else True
+            want_idx = idx0 if idx0 is not None else pd.RangeIndex(len(X))
+            out["index_ok"] = (bool(s.index.identical(want_idx)) if hasattr(s, "index") and len(s) == len(X) else True) and (
+                idx0 is None or bool(X.index.identical(idx0)))
         except NotImplementedError:
             out["scores"] = "not-implemented"
     return out
@@ -157,7 +167,7 @@ def oracle_det(c, r):
         elif g != v:
             return f"{describe(c)}: {k} output differs from the float DataFrame / default index run"
     if r["got"].get("index_ok") is False:
-        return f"{describe(c)}: the dense output does not carry X's own index"
+        return f"{describe(c)}: the dense output does not carry X's own index (values and name), or the call changed the caller's index"
     if not r["same_input"]:
         return f"{describe(c)}: the input container was modified"
     return None
